@@ -243,6 +243,23 @@ class SIntSet(object):
         self.ident = ident
 
 
+class HexStr(object):
+    """the text "%0<width>x" % value for a symbolic int value (only ever fed to a2b_hex)"""
+
+    def __init__(self, value, width):
+        self.value = value      # z3 Int
+        self.width = width      # python int
+
+
+class FileObj(object):
+    """ghost file: bytes `data` (SStr, is_bytes) and a read position `pos` (z3 Int)"""
+
+    def __init__(self, data, pos, origin=None):
+        self.data = data
+        self.pos = pos
+        self.origin = origin
+
+
 class SuperProxy(object):
     def __init__(self, obj, after):
         self.obj = obj
